@@ -24,7 +24,8 @@ CONSTANTS T,        \* frames
           Bonus,    \* insertion bonus weight
           Eos,      \* end-of-line modelling
           H0,       \* supplied initial LM state: 0 = none, c > 0 = history <<c>>
-          Unnorm    \* initial states include unnormalised matrices (for the Reject clause)
+          Unnorm,   \* initial states include unnormalised matrices (for the Reject clause)
+          SampleMats \* {} = every matrix of the shape; otherwise the set of matrices to start from (shapes beyond exhaustive reach)
 
 Blank == 0
 Chars == 1..NC
@@ -63,7 +64,7 @@ Ctc(p, n) == FwdB(p, n) + FwdN(p, n)
 
 Normalised == \A i \in 1..T : RowSum(mat[i]) = D
 
-Init == /\ mat \in [1..T -> IF Unnorm THEN AnyRows ELSE Rows]
+Init == /\ mat \in (IF SampleMats = {} THEN [1..T -> IF Unnorm THEN AnyRows ELSE Rows] ELSE SampleMats)
         /\ t = 0
         /\ phase = "run"
         /\ beam = (<<>> :> <<1, 0, 1>>)         \* prefix |-> <<Pb, Pnb, Plm>>
